@@ -212,6 +212,20 @@ func RunFamily(f *Family, tier string) int {
 			}
 			e2 := re[k]
 			i := v.rep.I - 1
+			if i < 0 { // unit-level report (chosen Go type, declared constants): no single document
+				confirmed++
+				if len(vlines) < 10 {
+					rp := &Replay{Property: f.Prop, Kind: "runtime-unit/" + v.rep.Kind, Unit: v.e.Unit.Raw, DocIndex: 0,
+						Schema: v.e.Schema, Options: v.e.Unit.Opts(), Expected: v.rep.Ref, Observed: v.rep.Obs,
+						Detail: "unit-level check failed: " + v.rep.Kind, HowTo: "bin/vcheck replay " + f.Prop + " <this file>"}
+					p, err := writeReplay(rp, fmt.Sprintf("seed%d-unit%d-%s", seed, v.e.Unit.Idx, v.rep.Kind))
+					if err != nil {
+						return infra(f.Prop, err)
+					}
+					vlines = append(vlines, fmt.Sprintf("VIOLATION property=%s replay=%s", f.Prop, p))
+				}
+				continue
+			}
 			same := false
 			if e2.Built && e2.Out != nil && i < len(e2.Out.Res) && v.e.Out != nil {
 				a, b := e2.Out.Res[i], v.e.Out.Res[i]
@@ -227,8 +241,8 @@ func RunFamily(f *Family, tier string) int {
 				rp := &Replay{Property: f.Prop, Kind: "runtime-unit", Unit: v.e.Unit.Raw, DocIndex: v.rep.I,
 					Schema: src.Schema, Options: v.e.Unit.Opts(), Document: src.Texts[i],
 					Expected: v.rep.Ref, Observed: v.rep.Obs,
-					Detail: fmt.Sprintf("reference verdict %s, observed %s (model with open deviations predicts %s); error text: %q",
-						v.rep.Ref, v.rep.Obs, v.rep.Impl, v.e.Out.Res[i].Msg),
+					Detail: fmt.Sprintf("%s check: reference verdict %s, observed %s (model with open deviations predicts %s); error text: %q; destination dump: %s; re-marshalled: %s",
+						v.rep.Kind, v.rep.Ref, v.rep.Obs, v.rep.Impl, v.e.Out.Res[i].Msg, v.e.Out.Res[i].Dump, v.e.Out.Res[i].Out),
 					HowTo: "bin/vcheck replay " + f.Prop + " <this file>"}
 				p, err := writeReplay(rp, fmt.Sprintf("seed%d-unit%d-doc%d", seed, v.e.Unit.Idx, v.rep.I))
 				if err != nil {
